@@ -2,9 +2,9 @@
    Statements + `exact` only; proofs are in Proofs/C14*.v.  The model (Model/C14.v) is tied to
    partitura/performance.py by the correspondence run by harness/props/c14.py on every check;
    the specification (Model/C14_Spec.v) is defined directly over the unsorted control stream. *)
-From PV Require Import Lib.Base Lib.Round Model.C12 Model.C14 Model.C14_Spec Model.C14_Note Model.C14_Trk
-  Proofs.C14_so Proofs.C14_spec Proofs.C14 Proofs.C14_hist Proofs.C14_note Proofs.C14_trk Proofs.C14_perm.
-From Coq Require Import QArith Qminmax Qabs Permutation.
+From PV Require Import Lib.Base Lib.Round Model.C12 Model.C14 Model.C14_Spec Model.C14_Note Model.C14_Trk Model.C14_State
+  Proofs.C14_so Proofs.C14_spec Proofs.C14 Proofs.C14_hist Proofs.C14_note Proofs.C14_trk Proofs.C14_perm Proofs.C14_state Proofs.C14_repr Proofs.C14_order.
+From Coq Require Import QArith Qminmax Qabs Permutation ZArith List.
 #[local] Open Scope Q_scope.
 
 (* O2a  every note sounds at least until its release -- all note lists, control streams, thresholds *)
@@ -357,3 +357,130 @@ Theorem control_order_worked_example :
   Permutation cs cs' /\ distinct_pedal_times cs /\ sound_offs 64 ex_notes cs' = [3; 5; 6].
 Proof. exact control_order_example. Qed.
 Print Assumptions control_order_worked_example.
+
+(* ===== state carried between calls (Model/C14_State.v, Proofs/C14_state.v) ===== *)
+#[local] Open Scope Z_scope.
+
+(* H1  what a caller sees of a part after ANY history of operations ending in a recomputation -- the
+   sound_off column and the rows of note_array() -- is a function of the notes, controls and threshold
+   the part has NOW *)
+Theorem observation_after_history : forall ppq mpq p ss s,
+  List.length (p_so p) = List.length (p_notes p) ->
+  let q := run_history p (ss ++ [s]) in
+  let so := sound_offs (p_thr q) (p_notes q) (p_ctrls q) in
+  observe ppq mpq q = (so, map (na_row ppq mpq) (combine (p_notes q) so)).
+Proof. exact observation_after_history_lemma. Qed.
+Print Assumptions observation_after_history.
+
+(* H2  two parts with different pasts that hold the same notes, controls and threshold show the same *)
+Theorem observations_agree : forall ppq mpq p p' ss ss' s s',
+  List.length (p_so p) = List.length (p_notes p) ->
+  List.length (p_so p') = List.length (p_notes p') ->
+  let q := run_history p (ss ++ [s]) in
+  let q' := run_history p' (ss' ++ [s']) in
+  p_notes q = p_notes q' -> p_ctrls q = p_ctrls q' -> p_thr q = p_thr q' ->
+  observe ppq mpq q = observe ppq mpq q'.
+Proof. exact observations_agree_lemma. Qed.
+Print Assumptions observations_agree.
+
+(* H3  not vacuous: a setter that returns early on an unchanged value, and a part that reads its pedal
+   events once, both end a history with a column that is NOT the one of the current state *)
+Theorem memo_setter_refuted :
+  exists p ss s, List.length (p_so p) = List.length (p_notes p) /\
+    let q := fold_left apply_step_memo (ss ++ [s]) p in
+    p_so q <> sound_offs (p_thr q) (p_notes q) (p_ctrls q).
+Proof. exact memo_setter_refuted_lemma. Qed.
+Print Assumptions memo_setter_refuted.
+
+Theorem cached_pedal_refuted :
+  exists p ss s, List.length (p_so p) = List.length (p_notes p) /\
+    let q := fold_left (apply_step_cached (p_ctrls p)) (ss ++ [s]) p in
+    p_so q <> sound_offs (p_thr q) (p_notes q) (p_ctrls q).
+Proof. exact cached_pedal_refuted_lemma. Qed.
+Print Assumptions cached_pedal_refuted.
+
+(* H4  releases that are all whole numbers: an array of them that keeps an integer dtype truncates the
+   sounding ends (2.5 -> 2, 1.5 -> 1); the model's column is the untruncated one *)
+Theorem int_dtype_refuted :
+  forallb valid_note ix_notes = true /\
+  sound_offs 64 ix_notes ix_ctrls = [5#2; 3#2; 3]%Q /\
+  sound_offs_intdtype 64 ix_notes ix_ctrls = [2; 1; 3]%Q /\
+  sound_offs_intdtype 64 ix_notes ix_ctrls <> sound_offs 64 ix_notes ix_ctrls.
+Proof. exact int_dtype_refuted_lemma. Qed.
+Print Assumptions int_dtype_refuted.
+
+(* H5  a Performance after ANY history of edits (parts replaced, appended, deleted, notes added, track keys
+   changed in place, earlier renumberings): sanitize_track_numbers() keeps every part's shape and gives two
+   events the same number exactly when they are events of one part that hold the same track NOW; events of
+   different parts never share a number *)
+Theorem perf_history_sanitize : forall ps ss, prun ps (ss ++ [PSanitize]) = sanitize (prun ps ss).
+Proof. exact perf_history_sanitize_lemma. Qed.
+Print Assumptions perf_history_sanitize.
+
+Theorem perf_history_partition : forall ps ss k1 k2 a b x y,
+  let cur := prun ps ss in
+  let fin := prun ps (ss ++ [PSanitize]) in
+  nth_error (all_pairs 0 cur) k1 = Some a -> nth_error (all_pairs 0 cur) k2 = Some b ->
+  nth_error (map snd (all_pairs 0 fin)) k1 = Some x -> nth_error (map snd (all_pairs 0 fin)) k2 = Some y ->
+  map shape fin = map shape cur /\ (x = y <-> a = b) /\ (fst a <> fst b -> x <> y).
+Proof. exact perf_history_partition_lemma. Qed.
+Print Assumptions perf_history_partition.
+
+(* H6  not vacuous: a performance that makes its track map once, at construction, cannot number a part
+   appended later (the lookup fails, -1), the real one numbers it 2, 4, 3 *)
+Theorem perf_memo_refuted :
+  let ps := sanitize px_parts in
+  let ids := usort (all_pairs 0 px_parts) in
+  map snd (all_pairs 0 (prun ps [PAppend px_new; PSanitize])) = [0; 1; 0; 2; 4; 3] /\
+  map snd (all_pairs 0 (fold_left (papply_memo ids) [PAppend px_new; PSanitize] ps)) = [0; 1; 0; -1; -1; -1].
+Proof. exact perf_memo_refuted_lemma. Qed.
+Print Assumptions perf_memo_refuted.
+
+(* O5e  num_tracks (the number of distinct (part, track) pairs) is not changed by sanitising, and it is
+   the number of distinct track numbers in use afterwards -- all performances *)
+Theorem num_tracks_sanitize : forall ps, num_tracks (sanitize ps) = num_tracks ps.
+Proof. exact num_tracks_sanitize_lemma. Qed.
+Print Assumptions num_tracks_sanitize.
+
+Theorem num_tracks_counts_new_numbers : forall ps,
+  num_tracks ps = Z.of_nat (List.length (nodup Z.eq_dec (new_numbers ps))).
+Proof. exact num_tracks_counts_new_numbers_lemma. Qed.
+Print Assumptions num_tracks_counts_new_numbers.
+
+(* ===== the way a time is written, the order the notes are listed in ===== *)
+#[local] Open Scope Q_scope.
+
+(* R1  note lists and control streams whose times are equal as rationals (1 and 2/2; in the code: int 1,
+   float 1.0, numpy scalars of any dtype) and whose pitches, velocities, controller numbers and values are
+   the same give equal sounding ends -- nothing depends on the representation of a number *)
+Theorem representation_irrelevant : forall thr ns ns' cs cs',
+  Forall2 note_eqv ns ns' -> Forall2 ctrl_eqv cs cs' ->
+  Forall2 Qeq (sound_offs thr ns cs) (sound_offs thr ns' cs').
+Proof. exact representation_irrelevant_lemma. Qed.
+Print Assumptions representation_irrelevant.
+
+Theorem representation_example :
+  let ns := [mkNote 60 64 0 2; mkNote 62 64 0 1; mkNote 62 64 (3#2) 3] in
+  let ns' := [mkNote 60 64 (0#5) (4#2); mkNote 62 64 0 (3#3); mkNote 62 64 (6#4) (9#3)] in
+  let cs := [mkCtrl 64 (1#2) 100; mkCtrl 64 (5#2) 0] in
+  let cs' := [mkCtrl 64 (2#4) 100; mkCtrl 64 (10#4) 0] in
+  Forall2 note_eqv ns ns' /\ Forall2 ctrl_eqv cs cs' /\ ns <> ns' /\
+  sound_offs 64 ns cs = [5#2; 3#2; 3] /\ Forall2 Qeq (sound_offs 64 ns' cs') [5#2; 3#2; 3].
+Proof. exact representation_example_lemma. Qed.
+Print Assumptions representation_example.
+
+(* R2  in ANY permutation of the note list every note keeps its sounding end (quantifier: unsorted order);
+   hypotheses as for sound_off_is_spec (numpy's order of equal sort keys) *)
+Theorem note_order_irrelevant : forall thr ns ns' cs,
+  Permutation ns ns' -> distinct_pedal_times cs ->
+  no_zero_length_tie ns -> no_zero_length_tie ns' -> released_after_onset ns ->
+  forall i i' n s s', nth_error ns i = Some n -> nth_error ns' i' = Some n ->
+  nth_error (sound_offs thr ns cs) i = Some s -> nth_error (sound_offs thr ns' cs) i' = Some s' -> s == s'.
+Proof. exact note_order_irrelevant_lemma. Qed.
+Print Assumptions note_order_irrelevant.
+
+Theorem note_order_example :
+  Permutation ex_notes (rev ex_notes) /\ no_zero_length_tie (rev ex_notes) /\
+  sound_offs 64 ex_notes ex_ctrls = [3; 5; 6] /\ sound_offs 64 (rev ex_notes) ex_ctrls = [6; 5; 3].
+Proof. exact note_order_example_lemma. Qed.
+Print Assumptions note_order_example.
